@@ -24,6 +24,9 @@ NAMES = ["t0", "t1", "t2"]
 CMDS = ("noop", "fail", "continue", "retry")
 
 
+OWN_THOROUGH = True
+
+
 def reference(defn):
     tasks = defn["tasks"]
 
